@@ -27,7 +27,7 @@ TOOL_DIR = os.path.join(E.VERIF, "tools", "rs2coq_arith")
 TEMPLATE = os.path.join(E.COQ, "gen", "ArithGenProofs.v")
 W = 2 ** 64
 
-MS = [1, 2, 3, 2 ** 31, 2 ** 32, 2 ** 63 - 1, 2 ** 63, 2 ** 63 + 1, 2 ** 64 - 2, 2 ** 64 - 1]
+MS = [1, 2, 3, 2 ** 31, 2 ** 31 + 1, 3000000000, 2 ** 32 - 5, 2 ** 32 - 2, 2 ** 32 - 1, 2 ** 32, 2 ** 63 - 1, 2 ** 63, 2 ** 63 + 1, 2 ** 64 - 2, 2 ** 64 - 1]
 
 # statements as coqc prints them (whitespace-normalised)
 EXPECT = {
